@@ -38,7 +38,10 @@ impl Model {
         // ---- C03: nothing built by a superseded run of a bind ran in the stabilise that superseded it
         for (h, pos) in runs.iter() {
             if let Some((b, g)) = self.nodes[*h].scope {
-                if self.nodes[*h].invalid_since == Some(round) && self.nodes[b].gen.map_or(false, |cg| cg > g) && self.nodes[b].lc_last_run == Some(round) {
+                // (relaxation R4: only while the bind was being maintained, i.e. needed when this
+                // stabilise started; a bind that was unnecessary and is re-connected in this round
+                // cannot have invalidated its old nodes before the scheduler reached them)
+                if self.nodes[*h].invalid_since == Some(round) && self.nodes[b].gen.map_or(false, |cg| cg > g) && self.nodes[b].lc_last_run == Some(round) && self.cone_start.contains(&b) {
                     viol!(self, *pos, "C03", "superseded-node-ran", "node {} built by run {} of bind {} was computed in the stabilise in which the bind's input changed", h, g, b);
                 }
             }
